@@ -214,6 +214,8 @@ def deScalarJ : STy → JVal → Except DeErr SVal
   | .string, .str s => .ok (.str s)
   | .char, .str s => match parseChar s with | some c => .ok (.chr c) | none => .error .parse
   | .enum vs, .str s => if vs.contains s then .ok (.variant s) else .error .variant
+  -- serde_json also reads a unit variant from the externally tagged form `{"Variant": null}`
+  | .enum vs, .obj [(k, .null)] => if vs.contains k then .ok (.variant k) else .error .variant
   | _, _ => .error .parse
 
 def deSeqJ (t : STy) : List JVal → Except DeErr (List SVal)
